@@ -10,4 +10,7 @@ git -C /verif rev-parse HEAD > /tmp/vw/$P/BASE
 git -C /repo worktree add --detach /tmp/vw/$P/repo HEAD >/dev/null 2>&1
 sed -i "s#/repo/sudachi#/tmp/vw/$P/repo/sudachi#" /tmp/vw/$P/verif/harness/Cargo.toml
 sed -i "s#/verif/.build/cargo#/tmp/vw/$P/verif/.build/cargo#" /tmp/vw/$P/verif/harness/.cargo/config.toml
+# warm caches: lake traces are content-addressed, cargo deps are reused (the sudachi crate and the harness rebuild)
+cp -r /verif/lean/.lake /tmp/vw/$P/verif/lean/.lake 2>/dev/null || true
+cp -r /verif/.build /tmp/vw/$P/verif/.build 2>/dev/null || true
 echo "ready /tmp/vw/$P"
